@@ -185,9 +185,9 @@ def run_case(case):
                 judge(hk, r.get_result(), names, base_pts, before)
             elif hk == "second-runner":
                 yad.Runner(th, mkobs(request(case["extra_names"], [dict(p) for p in case["extra_points"]]))).get_result()
-                # and a runner on a *different* grid with the same number of nodes, degree and log mode (process-wide memos keyed
+                # and a runner on a *different* grid with the same number of nodes, end points, degree and log mode (process-wide memos keyed
                 # by grid size only would survive it)
-                g2 = [float(v) for v in np.array(g["xgrid"][:-1]) ** 0.9] + [1.0]
+                g2 = cards.warp_grid(g["xgrid"])
                 lowx = max(0.3, g2[1] * 2.0)
                 other = cards.observables({names[0]: [dict(x=lowx, Q2=pts[0]["Q2"])]}, xgrid=g2, deg=g["deg"], is_log=g["is_log"], **case["obs"])
                 try:
